@@ -139,7 +139,7 @@ pub fn campaign(target: &str, rules: &[&str], seed: u64, thorough: bool, profile
                     let run_seed = mix(base, i);
                     let pname = profile_name(&prof);
                     let r = match std::panic::catch_unwind(std::panic::AssertUnwindSafe(|| {
-                        run_one(RunOpts { seed: run_seed, profile: prof, thorough, log_events: false, script: None, plan_override: None })
+                        run_one(RunOpts { seed: run_seed, profile: prof, thorough, log_events: false, script: None, plan_override: None, target: Some(target.to_string()) })
                     })) {
                         Ok(r) => r,
                         Err(_) => {
@@ -237,7 +237,7 @@ pub fn write_replay(id: &str, seed: u64, profile: &str, thorough: bool, v: &Viol
         }
     } else if engine == "sim" {
         let r = std::panic::catch_unwind(std::panic::AssertUnwindSafe(|| {
-            run_one(RunOpts { seed, profile: profile_from(profile), thorough, log_events: true, script: None, plan_override: None })
+            run_one(RunOpts { seed, profile: profile_from(profile), thorough, log_events: true, script: None, plan_override: None, target: None })
         }));
         match r {
             Ok(r) => r.events.iter().map(|e| format!("[{} t={}ms] {}", e.step, e.t_ms, e.text)).collect(),
@@ -407,17 +407,17 @@ pub fn run_check(id: &str, tier: &str, seed: u64) -> i32 {
         "C19" => run_c19(id, tier, seed),
         "C14" => run_c14(id, tier, seed),
         "C06" => run_c06(id, tier, seed),
-        "C02" => fe(&[Crashy, Mixed, Reject], &["R02"], n(30_000, 1_500_000), ft),
-        "C05" => fe(&[Crashy, Mixed], &["R05"], n(30_000, 1_500_000), ft),
-        "C08" => fe(&[Crashy, Mixed], &["R08a", "R08c"], n(30_000, 1_500_000), ft),
-        "C09" => fe(&[Probe], &["R09"], n(20_000, 800_000), ft),
-        "C01" => sim(&[Hashes, Mixed, Crashy], &["R01a", "R01b", "R01c"], n(24_000, 1_000_000), rt, "exploration"),
-        "C03" => sim(&[Amounts, Mixed, Reject], &["R03a", "R03b", "R03c"], n(24_000, 1_000_000), rt, "exploration"),
-        "C04" => sim(&[Expiry, Mixed], &["R04a"], n(24_000, 1_000_000), rt, "exploration"),
-        "C07" => sim(&[Reject, Mixed], &["R07a", "R07b", "R07c"], n(24_000, 1_000_000), rt, "exploration"),
-        "C10" => sim(&[Classify, Hashes], &["R10"], n(24_000, 1_000_000), rt, "exploration"),
-        "C11" => sim(&[Timeout, Mixed], &["R11a", "R11b", "R11c"], n(24_000, 1_000_000), rt, "exploration"),
-        "C13" => sim(&[PassThrough, Mixed], &["R13a", "R13b"], n(24_000, 1_000_000), rt, "exploration"),
+        "C02" => fe(&[Crashy, Mixed, Reject], &["R02"], n(90_000, 2_000_000), ft),
+        "C05" => fe(&[Crashy, Mixed], &["R05"], n(90_000, 2_000_000), ft),
+        "C08" => fe(&[Crashy, Mixed], &["R08a", "R08c"], n(90_000, 2_000_000), ft),
+        "C09" => fe(&[Probe], &["R09"], n(50_000, 1_000_000), ft),
+        "C01" => sim(&[Hashes, Mixed, Crashy], &["R01a", "R01b", "R01c"], n(80_000, 1_500_000), rt, "exploration"),
+        "C03" => sim(&[Amounts, Mixed, Reject], &["R03a", "R03b", "R03c"], n(80_000, 1_500_000), rt, "exploration"),
+        "C04" => sim(&[Expiry, Mixed], &["R04a"], n(80_000, 1_500_000), rt, "exploration"),
+        "C07" => sim(&[Reject, Mixed], &["R07a", "R07b", "R07c"], n(80_000, 1_500_000), rt, "exploration"),
+        "C10" => sim(&[Classify, Hashes], &["R10"], n(80_000, 1_500_000), rt, "exploration"),
+        "C11" => sim(&[Timeout, Mixed], &["R11a", "R11b", "R11c"], n(80_000, 1_500_000), rt, "exploration"),
+        "C13" => sim(&[PassThrough, Mixed], &["R13a", "R13b"], n(80_000, 1_500_000), rt, "exploration"),
         _ => {
             println!("INCONCLUSIVE property={id} unknown check");
             2
@@ -444,7 +444,7 @@ pub fn replay(path: &str) -> i32 {
             None => return 2,
         }
     } else {
-        run_one(RunOpts { seed, profile: profile_from(&profile), thorough, log_events: true, script: None, plan_override: None })
+        run_one(RunOpts { seed, profile: profile_from(&profile), thorough, log_events: true, script: None, plan_override: None, target: None })
     };
     for e in &r.events {
         println!("[{} t={}ms] {}", e.step, e.t_ms, e.text);
@@ -466,7 +466,7 @@ pub fn dev_run(args: &Args) -> i32 {
     let n: u64 = args.get("--n").and_then(|s| s.parse().ok()).unwrap_or(1);
     let thorough = args.has("--thorough");
     if n == 1 {
-        let r = run_one(RunOpts { seed, profile, thorough, log_events: true, script: None, plan_override: None });
+        let r = run_one(RunOpts { seed, profile, thorough, log_events: true, script: None, plan_override: None, target: None });
         for e in &r.events {
             println!("[{} t={}ms] {}", e.step, e.t_ms, e.text);
         }
@@ -829,7 +829,7 @@ pub fn run_c06(id: &str, tier: &str, seed: u64) -> i32 {
     let thorough = tier == "thorough";
     use Profile::*;
     let rules = ["R06a", "R06b", "R06c", "R06d"];
-    let agg = campaign(id, &rules, seed, thorough, &[Hostile, Mixed, Crashy, Reject], if thorough { 1_000_000 } else { 24_000 }, if thorough { 1200 } else { 60 });
+    let agg = campaign(id, &rules, seed, thorough, &[Hostile, Mixed, Crashy, Reject], if thorough { 1_500_000 } else { 80_000 }, if thorough { 1200 } else { 60 });
     let mut extra = json!({});
     let mut e2e_viol: Vec<(String, u64, String)> = vec![];
     let mut inconclusive: Vec<String> = vec![];
